@@ -28,13 +28,26 @@ def positions(expl, v, N):
     return pos
 
 
-def h_explain(f, N, txt=None, period=None):
+def h_explain(f, N, txt=None, period=None, defs=None):
     f = T(f)
+    names = []
+    if defs:
+        # named sub-formulas (several assertions in one text): every reference is the same node object, and the explainer also
+        # walks each named sub-formula on its own; the oracle sees the inlined formula
+        from .c09 import inline
+        dl = [(n, T(d)) for n, d in defs]
+        txt_full = '\n'.join('%s = %s;' % (n, text(d)) for n, d in dl) + '\nout = ' + text(f) + ';'
+        names = [n for n, _ in dl]
+        f = inline(f, dict(dl))
+        subs_inl = [inline(d, dict(dl)) for _, d in dl]
     vs = sorted(variables(f))
 
     def body(env):
         A = env.A
-        s = dt.make_spec('offline', 'out = ' + (txt or text(f)), vs, period=period)
+        if defs:
+            s = dt.make_spec('offline', txt_full, vs + names, period=period)
+        else:
+            s = dt.make_spec('offline', 'out = ' + (txt or text(f)), vs, period=period)
         w = dt.trace(env, vs, N)
         out = dt.offline(s, w, N)
         s.explain()
@@ -49,7 +62,13 @@ def h_explain(f, N, txt=None, period=None):
         # violated in the Boolean sense; for iff/xor-free formulas rho<0 implies it (C07), for iff/xor (whose robustness
         # -|p-q| is negative also when both sides hold) only the Boolean violation counts as a violation
         violated = A.And(triggered, A.Not(st[0]))
-        res = [('nothing-reported-when-not-negative', A.Or(triggered, A.bool(all(not reported[v] for v in vs))))]
+        any_triggered = triggered
+        if defs:
+            # every assertion of the text is a specification of its own for explain(): a named sub-formula that is itself negative at
+            # time 0 is explained too, so "nothing is reported" is demanded only when no assertion is negative at time 0 (a superset of
+            # a sufficient cause is still a sufficient cause, so the second claim is unaffected)
+            any_triggered = A.Or(triggered, *[A.lt(rho(A, d, w, N)[0], 0) for d in subs_inl])
+        res = [('nothing-reported-when-not-negative', A.Or(any_triggered, A.bool(all(not reported[v] for v in vs))))]
         w2 = dt.trace(env, vs, N, prefix='p_')
         agree = A.And(*[A.eq(w2[v][i], w[v][i]) for v in vs for i in reported[v]])
         st2 = sat(A, f, w2, N)
@@ -283,6 +302,23 @@ def obligations(tier, rng):
             for c in ('or', 'and') + (() if quick else ('implies',)):
                 f = (c, l, r)
                 out.append(ob('C20', 'explain', 'dup/%s/N=%d' % (text(f), 6), f=f, N=6, max_paths=40000, wall=600))
+    # named sub-formulas: the node of a name is shared by all its references and is explained once per reference (with other
+    # blamed intervals each time) and once more on its own
+    PS, QS = ('var', 'psub'), ('var', 'qsub')
+    C3 = ('const', 3.0)
+    mods = [([('psub', ('geq', Y, C3))], ('implies', ('geq', X, C3), ('or', PS, ('eventually_t', PS, 2, 4))), 6),
+            ([('psub', ('geq', X, C3))], ('eventually_t', PS, 0, 3), 5),
+            ([('psub', ('geq', X, C3))], ('or', PS, ('next', PS)), 3),
+            ([('psub', ('geq', X, C3))], ('or', ('eventually_t', PS, 0, 1), ('eventually_t', PS, 2, 3)), 5),
+            ([('psub', ('geq', X, C3))], ('and', ('always_t', PS, 0, 1), ('always_t', PS, 2, 3)), 5),
+            ([('psub', ('once_t', ('geq', X, C3), 0, 1))], ('or', PS, ('eventually_t', PS, 2, 3)), 5),
+            ([('psub', ('geq', X, C3)), ('qsub', ('or', PS, ('geq', Y, C3)))], ('or', QS, ('eventually_t', PS, 1, 2)), 4),
+            ([('psub', ('geq', X, C3)), ('qsub', ('eventually_t', PS, 0, 1))], ('or', QS, ('next', ('next', QS))), 5),
+            ([('psub', ('leq', X, C3))], ('iff', PS, ('next', PS)), 3),
+            ([('psub', ('geq', X, C3))], ('or', ('rise', PS), ('eventually_t', PS, 1, 2)), 4)]
+    for defs, main, N in mods:
+        out.append(ob('C20', 'explain', 'named/%s/%s/N=%d' % (';'.join('%s=%s' % (n, text(d)) for n, d in defs), text(main), N), f=main, N=N, defs=defs,
+                      max_paths=40000, wall=600))
     if not quick:
         for i in range(200):
             f = refsem.gen_formula(rng, 3, ops, [(0, 1), (1, 2)], ('x', 'y'))
